@@ -41,7 +41,10 @@ def init_cases(draw, paths):
     return dict(path=draw(st.sampled_from(paths)),
                 variant=draw(st.sampled_from(['asis', 'asis', 'offline', 'offline_syn', 'split_ok', 'split_bad', 'limit_below'])),
                 sel=draw(st.integers(0, 50)), gamma=draw(st.sampled_from([0.3, 0.5, 0.75])),
-                bad_sum=draw(st.sampled_from([0.8, 1.2])))
+                bad_sum=draw(st.sampled_from([0.8, 1.2])),
+                # voltage dependence of the static loads during the simulation (constant power / current / impedance weights)
+                zip_p=draw(st.sampled_from([None, None, [1.0, 0.0, 0.0], [0.0, 1.0, 0.0], [0.4, 0.3, 0.3]])),
+                zip_q=draw(st.sampled_from([None, None, [1.0, 0.0, 0.0], [0.0, 1.0, 0.0], [0.3, 0.5, 0.2]])))
 
 
 def build_variant(c):
@@ -118,7 +121,12 @@ def build_variant(c):
     cwd = os.getcwd()
     try:
         os.chdir(os.path.dirname(path))
-        ss = build.system_from_rows(rows, rc={'PFlow': dict(report=0), 'TDS': dict(no_tqdm=1, tf=1.0, criteria=0)})
+        rc = {'PFlow': dict(report=0), 'TDS': dict(no_tqdm=1, tf=1.0, criteria=0)}
+        if c.get('zip_p') or c.get('zip_q'):
+            zp, zq = c.get('zip_p') or [0.0, 0.0, 1.0], c.get('zip_q') or [0.0, 0.0, 1.0]
+            rc['PQ'] = dict(p2p=zp[0], p2i=zp[1], p2z=zp[2], q2q=zq[0], q2i=zq[1], q2z=zq[2])
+            info['note'] += ' load weights p=%s q=%s' % (zp, zq)
+        ss = build.system_from_rows(rows, rc=rc)
     finally:
         os.chdir(cwd)
     return ss, info
@@ -168,6 +176,7 @@ def init_case(ctx, c):
     for m in classes:
         ctx.extra['model_classes_reached'][m] = ctx.extra['model_classes_reached'].get(m, 0) + 1
     ctx.count('variant:' + c['variant'])
+    ctx.count('load_weights:' + ('default' if not (c.get('zip_p') or c.get('zip_q')) else 'p=%s q=%s' % (c.get('zip_p'), c.get('zip_q'))))
     ctx.count('verdict:' + ('ok' if test_ok else 'failed'))
     # ---- (1) verdict consistency -------------------------------------------------------------------------------
     ss.TDS.fg_update(ss.exist.pflow_tds, init=True)
